@@ -152,6 +152,7 @@ def check_remove(p, name, c0, lab):
 def check_replace_subcircuit(p, name, c0, call, flavour):
     c = mutators.rebuild(c0)
     sub = mutators.other_circuit(call["sub_spec"])
+    sub_before = circ.snapshot(sub)
     try:
         c.replace_subcircuit(sub, dict(call["inputs_mapping"]), dict(call["outputs_mapping"]))
     except DOCUMENTED:
@@ -180,6 +181,26 @@ def check_replace_subcircuit(p, name, c0, call, flavour):
         r, mod = p.check([z3.Or(*[symeval.states_differ(oa[a], ob[b]) for a, b in zip(c0.outputs, c.outputs)])], label="replace")
         if r == "sat":
             probs.append("truth table of the whole circuit changed")
+    if not probs:
+        # the caller still holds the replacement circuit: neither the replacement nor later edits of the host may change it
+        if circ.snapshot(sub) != sub_before:
+            probs.append("replacement circuit argument was modified")
+        else:
+            try:
+                for lab in list(call["inputs_mapping"].values())[:3] + list(call["outputs_mapping"].values())[:1]:
+                    c.rename_gate(lab, "later_" + lab)
+            except DOCUMENTED:
+                pass
+            if circ.snapshot(sub) != sub_before:
+                probs.append("replacement circuit the caller still holds changed when gates of the host were renamed afterwards")
+        if probs:
+            p.violation(f"replace_subcircuit:{flavour}:replacement-aliased", f"{call} on {circ.describe(c0)}: {probs[:3]}",
+                        head(c0) + f"call={call!r}\nsub=mutators.other_circuit(call['sub_spec']); before=circ.snapshot(sub)\n"
+                        "c.replace_subcircuit(sub, dict(call['inputs_mapping']), dict(call['outputs_mapping']))\nbad=[]\n"
+                        "if circ.snapshot(sub)!=before: bad.append('argument modified')\n"
+                        "try:\n    for lab in list(call['inputs_mapping'].values())[:3]+list(call['outputs_mapping'].values())[:1]: c.rename_gate(lab, 'later_'+lab)\nexcept Exception as e:\n    print(type(e).__name__)\n"
+                        "if circ.snapshot(sub)!=before: bad.append('changed by later renames in the host')\nprint(bad); sys.exit(1 if bad else 0)\n")
+            return
     if probs:
         p.violation(f"replace_subcircuit:{flavour}:{probs[0].split(' ')[0]}", f"{call} on {circ.describe(c0)}: {probs[:3]}",
                     head(c0) + f"call={call!r}\nmutators.apply_call(c, call)\nren=dict(call['inputs_mapping']); ren.update(call['outputs_mapping'])\n"
